@@ -460,6 +460,7 @@ class ADEV(Pytree):
         jaxpr: Jaxpr,
         consts: list[ArrayLike],
         flat_duals: list[Dual],
+        final_kont=None,
     ):
         dual_env = Environment()
         jax_util.safe_map(dual_env.write, jaxpr.constvars, Dual.tree_pure(consts))
@@ -482,7 +483,14 @@ class ADEV(Pytree):
                     outs = [outs]
                 jax_util.safe_map(pure_env.write, eqn.outvars, outs)
 
-            return jax_util.safe_map(pure_env.read, jaxpr.outvars)
+            outs = jax_util.safe_map(pure_env.read, jaxpr.outvars)
+            if final_kont is None:
+                return outs
+            # This jaxpr is continued by `final_kont` (e.g. the code after a cond whose
+            # branch this is): the value of the pure continuation is the primal of that
+            # continuation, as in the lane-wise estimators.
+            (out,) = outs
+            return [Dual.tree_primal(final_kont(Dual(out, _zero_tangent_like(out))))]
 
         # Dual evaluation.
         def eval_jaxpr_iterate_dual(
@@ -657,7 +665,9 @@ class ADEV(Pytree):
             (out_dual,) = jax_util.safe_map(dual_env.read, jaxpr.outvars)
             if not isinstance(out_dual, Dual):
                 out_dual = Dual(out_dual, _zero_tangent_like(out_dual))
-            return out_dual
+            # Continuation-passing: whatever follows this jaxpr is applied here, inside the
+            # continuation of every stochastic site, not to the site's averaged result.
+            return out_dual if final_kont is None else final_kont(out_dual)
 
         return eval_jaxpr_iterate_dual(jaxpr.eqns, dual_env, jaxpr.invars, flat_duals)
 
@@ -668,19 +678,22 @@ class ADEV(Pytree):
             closed_jaxpr, (_, _, out_tree) = stage(f)(*primals)
             jaxpr, consts = closed_jaxpr.jaxpr, closed_jaxpr.literals
             dual_leaves = Dual.tree_leaves(Dual.tree_pure(duals))
-            out_duals = ADEV.eval_jaxpr_adev(
+
+            def _final(out_duals):
+                out_tree_def = out_tree()
+                tree_primals, tree_tangents = Dual.tree_unzip(out_duals)
+                out_dual_tree = Dual.dual_tree(
+                    jtu.tree_unflatten(out_tree_def, tree_primals),
+                    jtu.tree_unflatten(out_tree_def, tree_tangents),
+                )
+                return kont(out_dual_tree)
+
+            return ADEV.eval_jaxpr_adev(
                 jaxpr,
                 consts,
                 dual_leaves,
+                _final,
             )
-            out_tree_def = out_tree()
-            tree_primals, tree_tangents = Dual.tree_unzip(out_duals)
-            out_dual_tree = Dual.dual_tree(
-                jtu.tree_unflatten(out_tree_def, tree_primals),
-                jtu.tree_unflatten(out_tree_def, tree_tangents),
-            )
-            vs = kont(out_dual_tree)
-            return vs
 
         # Force coercion to JAX arrays.
         def maybe_array(v):
